@@ -1,4 +1,5 @@
 import BctVerif.Lemmas.BetweenBin
+import BctVerif.Lemmas.BetweenLast
 
 /-!
 # `betweenness_bin`: the `while np.any(NSPd)` loop (C08)
@@ -16,7 +17,6 @@ def lvl (d : ℕ) (i j : Fin n) : ℕ :=
 
 structure BinInv (st : BinSt n) : Prop where
   dpos : 1 ≤ st.d
-  npd : ∀ i j, st.NPd.get i j = wc L st.d i j
   nspd : ∀ i j, st.NSPd.get i j =
     if i ≠ j ∧ (dist L).get i j = some st.d then (sigma L).get i j else 0
   nsp : ∀ i j, st.NSP.get i j =
@@ -47,26 +47,80 @@ theorem matMul_get (A B : AMat Nat n) (i j : Fin n) :
     (matMul A B).get i j = ∑ k, A.get i k * B.get k j := by
   simp [matMul, sumFin_eq_sum]
 
+/-- **extending only the shortest paths** (`NPd = np.dot(NSPd, G)`): one more step after the
+shortest paths of length `d` gives exactly the shortest-path counts of the pairs at distance `d + 1`
+and nothing for pairs farther apart or disconnected (binary matrices) -/
+theorem nspd_extend (hbin : ∀ i j, L.get i j ≤ 1) (d : ℕ) (hd1 : 1 ≤ d) (i j : Fin n) (hij : i ≠ j) :
+    ((dist L).get i j = some (d + 1) →
+      (∑ w, (if i ≠ w ∧ (dist L).get i w = some d then (sigma L).get i w else 0) * L.get w j) =
+        (sigma L).get i j) ∧
+    (((dist L).get i j = none ∨ ∃ k, (dist L).get i j = some k ∧ d + 1 < k) →
+      (∑ w, (if i ≠ w ∧ (dist L).get i w = some d then (sigma L).get i w else 0) * L.get w j) = 0) := by
+  constructor
+  · intro hd
+    rw [sigma_rec_last L i j hij]
+    refine Finset.sum_congr rfl fun w _ => ?_
+    by_cases hp : pred L (dist L) i w j = true
+    · obtain ⟨hL, a, ha, he⟩ := (pred_iff L).1 hp
+      rw [hd] at he; simp only [Option.some.injEq] at he
+      have hb := hbin w j
+      have h1 : L.get w j = 1 := by have := Nat.pos_of_ne_zero hL; omega
+      have hak : a = d := by omega
+      subst hak
+      have hiw : i ≠ w := by
+        rintro rfl; rw [dist_self] at ha; simp only [Option.some.injEq] at ha
+        omega
+      rw [if_pos hp, if_pos ⟨hiw, ha⟩, h1, mul_one]
+    · rw [if_neg hp]
+      by_cases hc : i ≠ w ∧ (dist L).get i w = some d
+      · rw [if_pos hc]
+        by_cases hL : L.get w j = 0
+        · rw [hL, mul_zero]
+        · exfalso; apply hp
+          rw [pred_iff]
+          have hb := hbin w j
+          have h1 : L.get w j = 1 := by have := Nat.pos_of_ne_zero hL; omega
+          exact ⟨hL, d, hc.2, by rw [hd, h1]⟩
+      · rw [if_neg hc, zero_mul]
+  · intro hfar
+    refine Finset.sum_eq_zero fun w _ => ?_
+    by_cases hc : i ≠ w ∧ (dist L).get i w = some d
+    · rw [if_pos hc]
+      by_cases hL : L.get w j = 0
+      · rw [hL, mul_zero]
+      · exfalso
+        have hb := hbin w j
+        obtain ⟨e, he, hel⟩ := dist_edge L hL
+        obtain ⟨c, hc', hcl⟩ := dist_triangle L hc.2 he
+        rcases hfar with hn | ⟨k, hk, hlt⟩
+        · rw [hn] at hc'; exact absurd hc' (by simp)
+        · rw [hk] at hc'; simp only [Option.some.injEq] at hc'; omega
+    · rw [if_neg hc, zero_mul]
+
 /-- one iteration of the loop keeps the invariant -/
 theorem binStep_inv (hbin : ∀ i j, L.get i j ≤ 1) {st : BinSt n} (h : BinInv L st) :
     BinInv L
       { d := st.d + 1
-        NPd := matMul st.NPd L
-        NSPd := AMat.ofFn fun i j => if st.Lm.get i j = 0 then (matMul st.NPd L).get i j else 0
+        NPd := matMul st.NSPd L
+        NSPd := AMat.ofFn fun i j => if st.Lm.get i j = 0 then (matMul st.NSPd L).get i j else 0
         NSP := AMat.ofFn fun i j => st.NSP.get i j +
-          (AMat.ofFn fun i j => if st.Lm.get i j = 0 then (matMul st.NPd L).get i j else 0 : AMat Nat n).get i j
+          (AMat.ofFn fun i j => if st.Lm.get i j = 0 then (matMul st.NSPd L).get i j else 0 : AMat Nat n).get i j
         Lm := AMat.ofFn fun i j => st.Lm.get i j +
-          (if (AMat.ofFn fun i j => if st.Lm.get i j = 0 then (matMul st.NPd L).get i j else 0 : AMat Nat n).get i j != 0
+          (if (AMat.ofFn fun i j => if st.Lm.get i j = 0 then (matMul st.NSPd L).get i j else 0 : AMat Nat n).get i j != 0
             then st.d + 1 else 0) } := by
-  have hnpd : ∀ i j, (matMul st.NPd L).get i j = wc L (st.d + 1) i j := by
-    intro i j
+  have hnpd : ∀ i j : Fin n, i ≠ j →
+      (((dist L).get i j = some (st.d + 1) → (matMul st.NSPd L).get i j = (sigma L).get i j) ∧
+       (((dist L).get i j = none ∨ ∃ k, (dist L).get i j = some k ∧ st.d + 1 < k) →
+          (matMul st.NSPd L).get i j = 0)) := by
+    intro i j hij
     rw [matMul_get]
-    simp only [wc, h.npd]
+    simp only [h.nspd]
+    exact nspd_extend hbin st.d h.dpos i j hij
   have hcell : ∀ i j : Fin n,
-      (if st.Lm.get i j = 0 then (matMul st.NPd L).get i j else 0) =
+      (if st.Lm.get i j = 0 then (matMul st.NSPd L).get i j else 0) =
         if i ≠ j ∧ (dist L).get i j = some (st.d + 1) then (sigma L).get i j else 0 := by
     intro i j
-    rw [h.lm, hnpd]
+    rw [h.lm]
     by_cases hij : i = j
     · simp [hij]
     · simp only [hij, if_false, ne_eq, not_false_eq_true, true_and]
@@ -74,7 +128,7 @@ theorem binStep_inv (hbin : ∀ i j, L.get i j ≤ 1) {st : BinSt n} (h : BinInv
       cases hd : (dist L).get i j with
       | none =>
         simp only [if_true]
-        rw [(wc_spec hbin (st.d + 1) i j).2 (Or.inl hd)]; simp
+        rw [(hnpd i j hij).2 (Or.inl hd)]; simp
       | some k =>
         have hk : 0 < k := dist_pos_of_ne L hd hij
         by_cases hkd : k ≤ st.d
@@ -84,11 +138,10 @@ theorem binStep_inv (hbin : ∀ i j, L.get i j ≤ 1) {st : BinSt n} (h : BinInv
         · simp only [hkd, if_false, if_true, Option.some.injEq]
           by_cases hkd1 : k = st.d + 1
           · subst hkd1
-            rw [(wc_spec hbin (st.d + 1) i j).1 hd]; simp
-          · rw [(wc_spec hbin (st.d + 1) i j).2 (Or.inr ⟨k, hd, by omega⟩)]; simp [hkd1]
+            rw [(hnpd i j hij).1 hd]; simp
+          · rw [(hnpd i j hij).2 (Or.inr ⟨k, hd, by omega⟩)]; simp [hkd1]
   constructor
   · simp
-  · exact hnpd
   · intro i j; simp only [AMat.get_ofFn]; exact hcell i j
   · intro i j
     simp only [AMat.get_ofFn]
